@@ -92,7 +92,7 @@ PROPS["C07"] = {
             "predecessor / successor / parent), creations reusing the freed slot, overwrites/resizes of other streams (payloads include runs of zeros covering whole aligned sectors, written over non-zero data; the root carries a CLSID and state bits in two cases of three; a third of the handles are opened under a letter-case variant, half are dropped dirty instead of flushed; a third of the histories go on from the reopened bytes after the sibling trees were repainted with a legal colouring that has red nodes; one step in forty is an episode on scratch streams: a listing in progress while a handle grows a stream, or create_stream over a stream with a live handle while a lower directory slot is free); per-step "
             "len/position check, and at checkpoints (all handles flushed) the full dump through fresh lookups AND through the "
             "independent parser is compared with the model. One step in forty is a handle-after-removal episode: a handle (with or without unwritten changes) is used again - flush, drop, set_len, write - after its stream was removed and the freed directory slot was left free or taken by a new stream or storage; its own answers are not judged, every other object must be untouched, live and in the stored bytes. non-trivial = history with >= 1 two-child removal; distinct = FNV-64 of steps",
-    "assumptions": COMMON_ASSUMPTIONS + ["a stream with a live handle is never removed or overwritten (outside the property)"],
+    "assumptions": COMMON_ASSUMPTIONS + ["in the random part of a history a stream with a live handle is not removed or overwritten; removal and re-creation under a live handle are exercised by dedicated episodes in which the old handle's own results are not judged - its stream is gone - only that it answers and that nothing else changes"],
     "checked_share": 0.6,
     "quick": {"budget_s": 20},
     "thorough": {"budget_s": 300},
